@@ -443,6 +443,7 @@ func Translate(repo string, spec TransSpec) (out string, err error) {
 		// proofs unfold generated definitions through this hint database, so that a helper function that appears
 		// in the source later is unfolded without touching the proof scripts
 		fmt.Fprintf(&fb, "#[export] Hint Unfold %s : go2v.\n", fi.name)
+		fb.WriteString(t.auxHint07(fi)) // [ext:T07] helpers the area does not list: a second database, so that proofs can open them and nothing else
 	}
 	sb.WriteString(t.consts20())
 	sb.WriteString(t.consts07()) // [ext:T07] package-level tables
